@@ -4,6 +4,7 @@ import Falcon.Model.Codec
 import Falcon.Model.KeyCodec
 import Falcon.Model.Ntt
 import Falcon.Model.Hash
+import Falcon.Model.Verify
 import Falcon.Spec.Codec
 /- dispatch of one line-protocol op to the model -/
 namespace Falcon.Driver
@@ -95,6 +96,9 @@ def execOp (chk : Bool) (tok : List String) : String :=
       renderRes renderInts (Ntt.intt d (Ntt.hadamard (Ntt.ntt d va) (Ntt.ntt d vb)))
   | ["ref_negacyc", a, b] => let va := parseNats a; renderInts (Ntt.negacyc va.length va (parseNats b))
   | ["hash_to_point", n, hx] => renderInts (Hash.hashToPoint (parseHex hx) (parseNat n))
+  | ["verify", n, m, sg, pk] =>
+      renderRes (fun o => match o with | none => "Undecodable" | some b => toString b)
+        (Verify.verifyBytes chk (parseNat n) (parseHex m) (parseHex sg) (parseHex pk))
   | _ => "bad-op"
 
 end Falcon.Driver
